@@ -19,6 +19,9 @@ def run(repo, rep, tier):
         "that branch subscripts are in the set; (R14.4) _fill_histogram fills through hist.fill.numpy on the selected "
         "column(s). Everything about dataframe contents, dtype inference, quantiles and chunk sums is run-time and not decided."
     )
+    rep.extra["explanation"] += " " + (
+        'Later additions: caller-provided spec keys are never overwritten (R14.2); (R14.5) no freshly indexed Series is assigned into the working frame; (R14.6) a function that takes an axis index reads its column list with that index.'
+    )
     rep.not_decided += ["dataframe contents, dtype inference, quantiles, timestamps, chunk sums (homomorphism over row chunks)"]
     mh = repo.modules.get(f"{DF}.make_histograms")
     base_m = repo.modules.get(f"{DF}.histogram_filler_base")
